@@ -469,7 +469,8 @@ pub fn run(tier: Tier) -> i32 {
             let sw = |v: usize| if v == l { l + 1 } else if v == l + 1 { l } else { v };
             *e = (sw(e.0), sw(e.1), e.2);
         }
-        check_net(&scratch, &net, 3 * (100_000 + i), tier, &mut st);
+        // (the index decides the table variants; single-via alternatives only on the first chain in the quick tier)
+        check_net(&scratch, &net, 3 * (100_000 + i) + i.min(1), tier, &mut st);
     }
     st.notes.insert("long routes: chains of 1023, 1024 and 1100 edges rendered in every format".into());
     app_level(&scratch, &mut st);
